@@ -94,6 +94,8 @@ type modEntry struct {
 	prefix string // region-key prefix after "id|"
 	deep   bool
 	text   string
+	ranged bool // the entry covers only elements [off, off+n) of the region (a slice)
+	off, n Term
 }
 
 func (ex *Exec) note(f string, a ...interface{}) {
